@@ -405,6 +405,24 @@ def r4(ctx):
         modi = ctx.ix.module(MOLITER)
         ifs = [s for s in walk_no_nested(it) if isinstance(s, ast.If) and f'self.{var}' in src(s.test) and names_in(s.test) == {'self'}]
         oky = len(ifs) == 1
+        if not oky and var == 'yield_invalid':
+            # the decision may be spread over several tests (validity bound to a local, merged with other conditions): decided on the paths of
+            # one read-loop iteration for an invalid fragment, from the statement that asks for the validity on
+            loops_ = [l for l in walk_no_nested(it) if isinstance(l, ast.For) and 'matePairIterator' in src(l.iter)]
+            if loops_:
+                body_ = loops_[0].body
+                k0 = next((k for k, s_ in enumerate(body_) if 'is_valid()' in src(s_)), None)
+                if k0 is not None:
+                    oky = True
+                    for flag in (True, False):
+                        at_ = mk_atoms({'fragment.is_valid()': False, f'self.{var}': flag})
+                        rs = [r for r in explore(body_[k0:], at_, max_paths=5000) if r['kind'] in ('continue', 'fall')]
+                        ys = {sum(1 for t, v, k in r['stores'] if t == '<yield>') for r in rs}
+                        dl = {sum(1 for t, v, k in r['stores'] if t == 'self.deleted_fragments') for r in rs}
+                        ends = {r['kind'] for r in rs}
+                        oky = oky and bool(rs) and ends == {'continue'} and (ys == {1} and dl == {0} if flag else ys == {0} and dl == {1})
+                    ctx.emit('C05-R4', st and oky, MOLITER, body_[k0], f'iterator: fragments are yielded iff self.{var}, otherwise counted as deleted', key=f'iterator:{var}')
+                    continue
         if oky:
             par = modi.parent[ifs[0]]
             block = None
